@@ -115,3 +115,25 @@ t15, s15 = render_items(f15(True))
 case("15-unset-assigned-to-record", "model regression: $2 = unset; ($2 < 0) is false and ($2 == 0) holds, same for $0 (fieldcmp sub-profile; hawk: KNOWN-FINDING numeric-string-comparison)",
      f15(False), files=[("f1.txt", "a b c\n")], fieldcmp=True, twin_txt=t15, twin_sx=s15)
 print("ok4")
+# 16. -v values: escape sequences are interpreted
+case("16-v-option-escapes", "-v var=value interprets escape sequences like the var=value operands (bin/hawk.c process_argv) -- patches/v-option-escapes",
+     [item("begin", [stmt_print([cat(cat(strlit("["), var("s")), strlit("]")), builtin("length", [var("s")], "num")])]),
+      item("end", [stmt_print([cat(cat(strlit("["), var("t")), strlit("]"))])])],
+     files=[("f1.txt", "a\n")],
+     cmdline=dict(fopt=None, vopts=[("s", "a\\tb\\\\c", "a\tb\\c")], operands=[("file", "f1.txt"), ("assign", "t", "x\\ty", "x\ty")]))
+# 17. a floating-point value that is an exact integer is converted like an integer
+m = binop("mul", E(P_PRIM, "2.0", sx("num", "2"), "num"), num(1000000))
+case("17-integral-float-to-string", "2.0 * 1000000 prints 2000000, not 2e+06; same for 1e6 and as a subscript (val.c val_flt_to_str) -- patches/integral-float-to-string",
+     [item("begin", [stmt_print([m, E(P_PRIM, "1e6", sx("num", "1000000"), "num"), cat(E(P_PRIM, "16777216.0", sx("num", "16777216"), "num"), strlit(""))]),
+                     stmt_expr(assign("set", idx("A", [E(P_PRIM, "1e6", sx("num", "1000000"), "num")]), num(1))),
+                     stmt_print([isin("A", [strlit("1000000")])])])])
+# 18. FNR assigned in BEGIN does not leak into the first file
+case("18-fnr-reset-first-file", "FNR assigned in BEGIN restarts at 1 in the first file (rio.c find_rio_in) -- patches/fnr-reset-first-file",
+     [item("begin", [stmt_expr(assign("set", var("FNR"), num(14))), stmt_expr(assign("set", var("NR"), num(5)))]),
+      item("rule", [stmt_print([var("FNR"), var("NR")])])], files=[("f1.txt", "a\nb\n"), ("f2.txt", "c\n")])
+# 19. OFS from an unset variable, then NF = n (repaired in /repo 029c3c2) and -v OFS (repaired in /repo 50eadb4)
+case("19-ofs-unset-then-nf", "OFS = unsetvar; NF = 2 joins without a separator (repaired in /repo 029c3c2); -v OFS=: (repaired in /repo 50eadb4)",
+     [item("rule", [stmt_expr(assign("set", field(num(1)), field(num(1)))), stmt_print([]),
+                    stmt_expr(assign("set", var("OFS"), var("never"))), stmt_expr(assign("set", var("NF"), num(2))), stmt_print([])])],
+     files=[("f1.txt", "a b c\n")], cmdline=dict(fopt=None, vopts=[("OFS", ":", ":")], operands=[("file", "f1.txt")]))
+print("ok5")
